@@ -135,6 +135,8 @@ func TestVerifWireSize(t *testing.T) {
 		}
 		r := rand.New(rand.NewSource(seed*5_000_011 + int64(s)))
 		rules := genesis.NewDefaultRules()
+		// a non-zero chain id (canoto omits an all-zero one, which would hide 34 bytes of the base) and, below, a
+		// realistic millisecond timestamp
 		rules.ChainID = ids.ID{7, 7, 7}
 		rules.NetworkID = 1
 		// the rule's action limit: the default 16, or whatever else the uint8 rule admits
@@ -165,6 +167,22 @@ func TestVerifWireSize(t *testing.T) {
 		default:
 			na = r.Intn(maxA + 1)
 			sizeOf = func(int) int { return wsSizes[r.Intn(len(wsSizes))] }
+			// a few actions, every one with a multi-byte length prefix: 3..16 actions of >= 128 bytes, some of >= 16384
+			if s%8 == 2 && maxA >= 3 {
+				hi := maxA
+				if hi > 16 {
+					hi = 16
+				}
+				na = 3 + r.Intn(hi-2)
+				big := []int{128, 129, 300, 16383}
+				if s%16 == 10 {
+					big = []int{16384, 16385, 20000}
+					if na > 8 {
+						na = 3 + r.Intn(6)
+					}
+				}
+				sizeOf = func(int) int { return big[r.Intn(len(big))] }
+			}
 		}
 		if na > 40 { // keep transactions small when sizes are large
 			old := sizeOf
